@@ -35,9 +35,10 @@ def hStep : Handler := fun op j =>
       let keys? ← getOptKeys j "keys"      -- null = default substance_keys = self.keys()
       match j.getObjVal? "ratex_value" with
       | .ok .null | .error _ =>
-        match ← resolveRxn vars (← field j "rxn") with
-        | none => pure "KeyError"
-        | some r => pure (showRates (rateDict vars r (keysFor keys? r)))
+        -- the modelled entry point for all parameter forms: `rateDictP` (theorem C03.named_parameter_feeds_rate)
+        let rj ← field j "rxn"
+        let r ← asRxnStoich rj
+        pure (showRates (rateDictP vars (← asParam rj) r (keysFor keys? r)))
       | .ok v => do
         let r ← asRxn (← field j "rxn")
         pure (showDict (rxnRateOf (← asRat v) r (keysFor keys? r)))
